@@ -24,7 +24,35 @@ PER = 320
 
 
 def plan(tier, seed):
-    return [{"id": f"{seed}-{i}", "i": i} for i in range(NCASES[tier])]
+    return [{"id": f"{seed}-{i}", "i": i} for i in range(NCASES[tier])] + [{"id": "repo-tests-under-contracts", "kind": "repo-tests", "timeout": 1200}]
+
+
+def run_repo_tests(case):
+    """The repository's own test suite with all runtime contracts (H1-H9) switched on."""
+    import json
+    import os
+    import subprocess
+    import tempfile
+
+    res = {"counters": {}, "violations": [], "tags": ["repo-tests"]}
+    with tempfile.TemporaryDirectory() as d:
+        rep = os.path.join(d, "contracts.json")
+        env = dict(os.environ, VERIF_CONTRACT_REPORT=rep, PYTHONPATH=os.pathsep.join([str(common.REPO / "src"), str(common.VERIF), str(common.DEPS)]))
+        p = subprocess.run([common.PY, "-m", "pytest", "-q", "-p", "no:cacheprovider", "-p", "vf.hooks.pytest_plugin", "--timeout=900", "-x", "--deselect", "tests/nanoemoji_test.py", "--deselect", "tests/maximum_color_test.py", "tests"], cwd=str(common.REPO), env=env, capture_output=True, text=True, timeout=1100)
+        try:
+            data = json.load(open(rep))
+        except Exception:
+            res["counters"]["repo_tests_report_missing"] = 1
+            return res
+    for k, v in data["counters"].items():
+        res["counters"]["repo_tests." + k] = v
+    for v in data["violations"]:
+        v["what"] = "while running the repository's own tests: " + v["what"]
+        res["violations"].append(v)
+    res["counters"]["repo_tests_ran"] = 1
+    res["nontrivial"] = True
+    res["key"] = "repo-tests"
+    return res
 
 
 def gen_affine(r):
@@ -153,6 +181,8 @@ def compile_roundtrip(ufo_paint):
 
 
 def run_case(case):
+    if case.get("kind") == "repo-tests":
+        return run_repo_tests(case)
     import numpy as np
 
     from vf.drive import inproc
@@ -376,7 +406,7 @@ def run_case(case):
 def finish(agg):
     c = agg["counters"]
     inc = []
-    need = ["A.emitted.PaintTranslate", "A.emitted.PaintScale", "A.emitted.PaintScaleUniform", "A.emitted.PaintScaleAroundCenter", "A.emitted.PaintScaleUniformAroundCenter", "A.emitted.PaintTransform", "A.compile_refused", "B.overflow_raised", "B.t_checked", "C.decompositions", "D.from_ot_checked", "H1.transformed", "H7.PaintRadialGradient"]
+    need = ["A.emitted.PaintTranslate", "A.emitted.PaintScale", "A.emitted.PaintScaleUniform", "A.emitted.PaintScaleAroundCenter", "A.emitted.PaintScaleUniformAroundCenter", "A.emitted.PaintTransform", "A.compile_refused", "B.overflow_raised", "B.t_checked", "C.decompositions", "D.from_ot_checked", "H1.transformed", "H7.PaintRadialGradient", "repo_tests.H1.transformed"]
     for k in need:
         if c.get(k, 0) == 0:
             inc.append(f"deciding monitor/branch never reached: {k}")
